@@ -111,7 +111,7 @@ func VerifC20bProbeCadence() {
 // C20.b': a blocked detector cannot stay blocked forever while results keep failing either: failed
 // results never change the cadence (requests is only reset by a success).
 func VerifC20bFailuresKeepCadence() {
-	b := vArbitraryBH(vC20maxN() - 2)
+	b := vArbitraryBH(4 + 2*vTier()) // window sizes up to 4 (thorough 6): every further size doubles the interleavings; 8 ran past an hour
 	vAssume(b.state == blackHoleStateBlocked)
 	probes := 0
 	for i := 0; i < b.N; i++ {
